@@ -56,6 +56,7 @@ class Interp:
         self.cfg = CFG(fi.node)
         self.helper_envelopes = helper_envelopes
         # optional: summaries of helpers that return a tuple -- call -> per position (maybe_none, envelopes | None)
+        self.kwarg_keys: set[str] | None = None  # keys a **kwargs parameter holds at the call site under analysis
         self.helper_tuples: Callable[[ast.Call], list[tuple[bool, list[Envelope] | None]] | None] | None = None
         self.max_states = max_states
         self.params = {a.arg for a in list(fi.node.args.posonlyargs) + list(fi.node.args.args) + list(fi.node.args.kwonlyargs)}  # type: ignore[attr-defined]
@@ -403,6 +404,13 @@ class Interp:
     def spread_keys(self, e: ast.AST) -> set[str] | None:
         """possible top-level keys of a `**name` spread: dict-literal keys plus constant subscript stores"""
         if not isinstance(e, ast.Name):
+            return None
+        kwarg = getattr(self.fi.node.args, "kwarg", None)  # type: ignore[attr-defined]
+        if kwarg is not None and e.id == kwarg.arg:
+            # **kwargs of the function itself: the keys the analysed call site passes (None = unknown)
+            rebound = any(isinstance(n, ast.Name) and n.id == e.id and isinstance(n.ctx, ast.Store) for n in walk_no_nested(self.fi.node)) or any(isinstance(n, ast.Subscript) and isinstance(n.ctx, ast.Store) and isinstance(n.value, ast.Name) and n.value.id == e.id for n in walk_no_nested(self.fi.node))
+            return None if rebound or self.kwarg_keys is None else set(self.kwarg_keys)
+        if e.id in self.params:
             return None
         if e.id in self._spread_keys_cache:
             return self._spread_keys_cache[e.id]
